@@ -95,6 +95,8 @@ var (
 	ErrVoteHeightMismatch       = errors.New("Error vote height mismatch")
 )
 
+var ErrInvalidProposalPartsHeader = errors.New("Error invalid proposal block parts header")
+
 //-----------------------------------------------------------------------------
 // RoundStepType enum type
 
@@ -1368,6 +1370,11 @@ func (cs *ConsensusState) defaultSetProposal(proposal *types.Proposal) error {
 	// We don't care about the proposal if we're already in RoundStepCommit.
 	if RoundStepCommit <= cs.Step {
 		return nil
+	}
+
+	// The part set header announces how many parts to allocate room for.
+	if proposal.BlockPartsHeader.Total < 0 || proposal.BlockPartsHeader.Total > types.MaxBlockSize {
+		return ErrInvalidProposalPartsHeader
 	}
 
 	// Verify POLRound, which must be -1 or between 0 and proposal.Round exclusive.
